@@ -81,7 +81,7 @@ TRANSJOBS = [("QuartzModel.Theorems.TransJobs", "TransJobs." + t) for t in [
     "trans_jobs_nothing_missing", "trans_status_consts", "trans_constructors", "trans_jobs_field_facts",
     "trans_function_execute", "trans_function_panic", "C16_function_status_iff_trans", "trans_function_lock_discipline", "trans_function_accessors", "C16_last_execution_function_trans",
     "trans_shell_execute", "C16_shell_status_iff_trans", "C16_shell_status_exit_trans", "trans_shell_lock_discipline", "C16_callback_once_trans_shell", "trans_shell_accessors",
-    "C16_last_execution_shell_trans", "trans_curl_execute", "C16_curl_status_iff_trans", "trans_curl_lock_discipline", "trans_curl_do_panic_holds_lock", "trans_curl_accessors",
+    "C16_last_execution_shell_trans", "trans_curl_execute", "C16_curl_status_iff_trans", "trans_curl_lock_discipline", "trans_curl_do_panic_releases_lock", "trans_curl_close_panic_releases_lock", "trans_curl_do_panic_holds_lock_unrepaired", "trans_curl_accessors",
     "C16_open_bodies_le_one_trans", "C16_last_execution_curl_trans"]]
 
 ODO = [("QuartzModel.Proofs.Odometer", t) for t in ["Odo.findForward_spec", "Odo.loop_fuel", "Odo.μ6_measure"]]
